@@ -701,9 +701,10 @@ class C04(Prop):
         import vlib
         idx = [i for i, l in enumerate(ctx["lines"]) if l.startswith("ctl ")]
         ls = [ctx["lines"][i] for i in idx]
-        rc, tags, _ = vlib.run_lines(vlib.DRV, ["ctl note" + l[3:] for l in ls])
-        if rc != 0 or len(tags) != len(ls):
-            return [("broken", "C04: `ctl note` could not be run", {})]
+        try:    # in parts, side by side like the model run (a million lines in the thorough tier)
+            tags, _ = vlib.run_model(["ctl note" + l[3:] for l in ls], vlib.workers_for(self))
+        except RuntimeError as e:
+            return [("broken", "C04: `ctl note` could not be run: %s" % e, {})]
         closed = lambda i: ctx["impl"][i].split(" ")[0]
         ov = [i for i, t in zip(idx, tags) if "overtaken=1" in t]
         ov260 = [i for i in ov if closed(i) == "closed=[260]"]
